@@ -628,7 +628,7 @@ func VfVersions() {
 	ids := map[string]bool{"null": true}
 	n := 1 + zzvf.Choice("operations", nops)
 	for i := 0; i < n; i++ {
-		switch zzvf.Choice("op", 4) {
+		switch zzvf.Choice("op", 5) {
 		case 3: // multipart upload (one part of two bytes) onto the key
 			b := zzvf.BytesN("mp_body", 2)
 			up, err := p.CreateMultipartUpload(vfCtx(), s3response.CreateMultipartUploadInput{Bucket: vfStr("bkt"), Key: &key})
@@ -648,6 +648,23 @@ func VfVersions() {
 			zzvf.Assert(zzvf.And(res.VersionId != nil, !ids[*res.VersionId]), "every-write-yields-a-new-distinct-version-id")
 			ids[*res.VersionId] = true
 			hist = append(hist, vfVersion{id: *res.VersionId, data: b})
+		case 4: // copy another object onto the key: a new version
+			b := zzvf.BytesN("copied_body", 1)
+			src := "src"
+			_, err := p.PutObject(vfCtx(), s3response.PutObjectInput{Bucket: vfStr("bkt"), Key: &src, Body: bytes.NewReader(b), ContentLength: &one})
+			zzvf.Assert(err == nil, "copy-source-put")
+			out, err := p.CopyObject(vfCtx(), s3response.CopyObjectInput{Bucket: vfStr("bkt"), Key: &key, CopySource: vfStr("bkt/src"), ExpectedBucketOwner: vfStr(""),
+				MetadataDirective: types.MetadataDirectiveCopy})
+			zzvf.Assert(err == nil, "copy-succeeds")
+			if err != nil {
+				return
+			}
+			zzvf.Assert(zzvf.And(out.VersionId != nil, out.VersionId != nil && !ids[*out.VersionId]), "every-write-yields-a-new-distinct-version-id")
+			if out.VersionId == nil {
+				return
+			}
+			ids[*out.VersionId] = true
+			hist = append(hist, vfVersion{id: *out.VersionId, data: b})
 		case 0: // put
 			b := zzvf.BytesN("body", 1)
 			out, err := p.PutObject(vfCtx(), s3response.PutObjectInput{Bucket: vfStr("bkt"), Key: &key, Body: bytes.NewReader(b), ContentLength: &one})
@@ -716,7 +733,7 @@ func VfVersions() {
 	// listing
 	mk := int32(100)
 	lv, err := p.ListObjectVersions(vfCtx(), &s3.ListObjectVersionsInput{Bucket: vfStr("bkt"), Delimiter: vfStr(""), KeyMarker: vfStr(""),
-		MaxKeys: &mk, Prefix: vfStr(""), VersionIdMarker: vfStr("")})
+		MaxKeys: &mk, Prefix: vfStr("k"), VersionIdMarker: vfStr("")}) // the prefix keeps the copy source "src" out of the listing
 	zzvf.Assert(err == nil, "list-versions-succeeds")
 	if err != nil {
 		return
@@ -926,7 +943,7 @@ func VfInterleave() {
 	zzvf.Assert(err == nil, "setup-old-object")
 	newBody := zzvf.Bytes("new_body", 1)
 	newLen := int64(len(newBody))
-	writerKind := zzvf.Choice("writer", 4) // 0 PutObject, 1 DeleteObject, 2 CopyObject from another key, 3 CompleteMultipartUpload
+	writerKind := zzvf.Choice("writer", 5) // 0 PutObject, 1 DeleteObject, 2 CopyObject from another key, 3 CompleteMultipartUpload, 4 CopyObject from a source that was itself a multipart upload
 	writerIsDelete := writerKind == 1
 	var upID string
 	var partTag *string
@@ -936,6 +953,18 @@ func VfInterleave() {
 		src := "src"
 		_, err := p.PutObject(vfCtx(), s3response.PutObjectInput{Bucket: vfStr("bkt"), Key: &src, Body: bytes.NewReader(newBody), ContentLength: &newLen})
 		zzvf.Assert(err == nil, "setup-copy-source")
+	case 4:
+		src := "src"
+		sup, err := p.CreateMultipartUpload(vfCtx(), s3response.CreateMultipartUploadInput{Bucket: vfStr("bkt"), Key: &src})
+		zzvf.Assert(err == nil, "setup-source-upload")
+		spr, err := p.UploadPart(vfCtx(), &s3.UploadPartInput{Bucket: vfStr("bkt"), Key: &src, UploadId: &sup.UploadId, PartNumber: &pn1, Body: bytes.NewReader(newBody), ContentLength: &newLen})
+		zzvf.Assert(err == nil, "setup-source-part")
+		if err != nil {
+			return
+		}
+		_, err = p.CompleteMultipartUpload(vfCtx(), &s3.CompleteMultipartUploadInput{Bucket: vfStr("bkt"), Key: &src, UploadId: &sup.UploadId,
+			MultipartUpload: &types.CompletedMultipartUpload{Parts: []types.CompletedPart{{PartNumber: &pn1, ETag: spr.ETag}}}})
+		zzvf.Assert(err == nil, "setup-source-complete")
 	case 3:
 		up, err := p.CreateMultipartUpload(vfCtx(), s3response.CreateMultipartUploadInput{Bucket: vfStr("bkt"), Key: &key})
 		zzvf.Assert(err == nil, "setup-upload")
@@ -956,7 +985,7 @@ func VfInterleave() {
 		case 1:
 			_, e := q.DeleteObject(vfCtx(), &s3.DeleteObjectInput{Bucket: vfStr("bkt"), Key: &key})
 			return e
-		case 2:
+		case 2, 4:
 			_, e := q.CopyObject(vfCtx(), s3response.CopyObjectInput{Bucket: vfStr("bkt"), Key: &key, CopySource: vfStr("bkt/src"), ExpectedBucketOwner: vfStr(""),
 				MetadataDirective: types.MetadataDirectiveCopy})
 			return e
